@@ -715,11 +715,39 @@ class Pots:
         self.true = MergedImageCoulombPotential()
         self.bound = InversePowerCoulombBoundingPotential()
         self.k = self.bound._prefactor
+        # The potentials that confirm thinned events in a run are, besides freshly constructed ones, deep copies (2nd..n-th handler of
+        # a pool, Tagger.initialize) and unpickled ones (resumed runs): custom __deepcopy__/__getstate__/__setstate__ rebuild the C
+        # object. The domination search and the consistency check below go through all three kinds.
+        import copy as _copy
+        import dill as _dill
+        self.trues = [self.true, _copy.deepcopy(self.true), _dill.loads(_dill.dumps(self.true))]
+        self.bounds = [self.bound, _copy.deepcopy(self.bound), _dill.loads(_dill.dumps(self.bound))]
+        self._n = 0
 
     def rates(self, d, s, c1, c2, speed=1.0):
         v = [0.0, 0.0, 0.0]
         v[d] = speed
-        return self.true.derivative(v, list(s), c1, c2), self.bound.derivative(v, list(s), c1, c2)
+        self._n += 1
+        k = self._n % 3
+        return self.trues[k].derivative(v, list(s), c1, c2), self.bounds[k].derivative(v, list(s), c1, c2)
+
+    def clones_consistent(self, ctx, rng, n):
+        """fresh, deep-copied and unpickled potentials must report bit-identical rates"""
+        for _ in range(n):
+            s = [rng.uniform(-0.5, 0.5) * self.L for _ in range(3)]
+            d = rng.randrange(3)
+            v = [0.0, 0.0, 0.0]
+            v[d] = 1.0
+            c1, c2 = rng.choice([(1.0, 1.0), (1.0, -1.0), (0.41, -0.82)])
+            for name, insts in (("true", self.trues), ("bound", self.bounds)):
+                vals = [p.derivative(v, list(s), c1, c2) for p in insts]
+                ctx.evaluations += 1
+                if not (vals[0] == vals[1] == vals[2]):
+                    ctx.fail("C04:%s-rate-differs-after-deepcopy-or-unpickle" % name,
+                             {"L": self.L, "direction": d, "separation": s, "charges": [c1, c2],
+                              "fresh": vals[0], "deepcopy": vals[1], "unpickled": vals[2]},
+                             "a deep-copied or unpickled potential reports a different %s event rate than the freshly constructed one "
+                             "(thinned events of pooled handlers / resumed runs are confirmed against it)" % name)
 
 
 def dom_check(ctx, P, d, s, c1, c2, stats, speed=1.0):
@@ -755,6 +783,7 @@ def part_domination(ctx):
     try:
         for li, L in enumerate(Ls):
             P = Pots(L)
+            P.clones_consistent(ctx, rng, ctx.n(150, 1500))
             if abs(P.k - consts.get("bound_prefactor", P.k)) > 0:
                 ctx.disagree("constants (AST of the source vs the constructed potential)", {"L": L}, P.k, consts)
             h = L / 2
